@@ -4,7 +4,7 @@ import sys
 
 from .. import gen, specs, guardlib
 from ..check import Stream, run_check
-from ..core import e_pstr, e_list, s_pstr, s_bool, s_exc
+from ..core import e_pstr, e_list, s_pstr, s_bool, s_exc  # noqa
 
 TAGS = [('<', '>'), ('<', '>'), ('<', '>'), ('{', '}'), ('[', ']'), ('(', ')'), ('|', '|'), ('<<', '>>'),
         ('é', 'ж'), ('<', '\n')]
@@ -248,6 +248,113 @@ class FitsStream(Stream):
                 % __import__('json').dumps(c))
 
 
+class CheckerHistoryStream(Stream):
+    name = 'regex_checker_history'
+    imports = guardlib.GUARD_IMPORTS
+    case_type = 'list fcase'
+    run_fn = 'run_fits_seq'
+    rule = ('ONE RegexChecker instance (compile-cache capacity None/0/1/2/1024) answers a sequence of 3-8 fits calls '
+            'for policies with different delimiter pairs that share element texts: the same text is well formed under '
+            'one pair and unbalanced, or differently segmented, under another; each answer is compared with the model '
+            '(which has no state) and (oracle) with a fresh checker asked only that call. non-trivial = sequence in '
+            'which one element text occurs under two delimiter pairs')
+
+    PAIRS = [('<', '>'), ('{', '}'), ('[', ']'), ('(', ')')]
+
+    def corpus(self):
+        def call(tags, el, v):
+            return {'checker': 'CRegex', 'policy': {'uid': 1, 'effect': 'allow', 'subjects': [], 'resources': [],
+                                                    'actions': [['s', el]], 'context': [], 'description': None,
+                                                    'tags': list(tags)},
+                    'field': 'actions', 'what': v, 'rxtable': [['a', ['chr', 97]], ['b', ['chr', 98]]]}
+        return [{'cache': 1024, 'calls': [call(('<', '>'), '{a}<', 'a<'), call(('{', '}'), '{a}<', 'a<'),
+                                          call(('<', '>'), '{a}<', '{a}<')]}]
+
+    def generate(self, rng, tier):
+        n = 500 if tier == 'quick' else 5000
+        segs = [('a', ['chr', 97]), ('b', ['chr', 98]), ('[a-c]', ['cls', False, [[97, 99]]]), ('.', ['dot']),
+                ('a+', ['plus', ['chr', 97]])]
+        for _ in range(n):
+            pairs = rng.sample(self.PAIRS, rng.choice([2, 2, 3]))
+            texts = []
+            for _k in range(rng.randint(1, 3)):
+                t = ''
+                for _j in range(rng.randint(1, 4)):
+                    r = rng.random()
+                    if r < 0.45:
+                        st, en = rng.choice(pairs)
+                        src = rng.choice(segs)[0]
+                        if '[' in src and (st, en) == ('[', ']'):
+                            src = 'a'
+                        t += st + src + en
+                    elif r < 0.7:
+                        t += rng.choice([p[0] for p in pairs] + [p[1] for p in pairs])
+                    else:
+                        t += rng.choice('abx ')
+                texts.append(t)
+            table = [[src, ast] for src, ast in segs]
+            calls = []
+            for _k in range(rng.randint(3, 8)):
+                tags = rng.choice(pairs)
+                el = rng.choice(texts)
+                # a value: the text with one pair's delimiters removed, or the text itself, mutated sometimes
+                v = el
+                for ch in tags:
+                    v = v.replace(ch, '')
+                v = rng.choice([v, el, gen.mutate_str(rng, v, 'ab')])
+                calls.append({'checker': 'CRegex',
+                              'policy': {'uid': 1, 'effect': 'allow', 'subjects': [], 'resources': [],
+                                         'actions': [['s', e] for e in rng.sample(texts, rng.randint(1, len(texts)))
+                                                     if e != el] + [['s', el]],
+                                         'context': [], 'description': None, 'tags': list(tags)},
+                              'field': 'actions', 'what': v, 'rxtable': table})
+            yield {'cache': rng.choice([None, 0, 1, 2, 1024]), 'calls': calls}
+
+    def emit(self, c):
+        return e_list([e_fcase(x) for x in c['calls']], 'fcase')
+
+    def _run(self, c, fresh=False):
+        ck = specs.mk_checker('CRegex', c['cache'])
+        out = []
+        for x in c['calls']:
+            if fresh:
+                ck = specs.mk_checker('CRegex', c['cache'])
+            p = specs.mk_policy(x['policy'])
+            try:
+                r = ck.fits(p, x['field'], specs.py(x['what']))
+                out.append(s_bool(r) if isinstance(r, bool) else '<%r>' % (r,))
+            except re.error:
+                out.append('SKIP')
+            except Exception as e:  # noqa
+                out.append(s_exc(e))
+        return out
+
+    def impl(self, c):
+        out = self._run(c)
+        return 'SKIP re.error' if 'SKIP' in out else ','.join(out)
+
+    def oracle(self, c, obs):
+        if obs.startswith('SKIP'):
+            return None
+        fresh = ','.join(self._run(c, fresh=True))
+        if fresh != obs:
+            return 'answers depend on what the checker was asked before: %s, fresh checkers answer %s' % (obs, fresh)
+        return None
+
+    def nontrivial(self, c, obs):
+        seen = {}
+        for x in c['calls']:
+            for e in x['policy']['actions']:
+                seen.setdefault(e[1], set()).add(tuple(x['policy']['tags']))
+        return any(len(v) > 1 for v in seen.values())
+
+    def shrink(self, c):
+        calls = c['calls']
+        for i in range(len(calls)):
+            if len(calls) > 1:
+                yield dict(c, calls=calls[:i] + calls[i + 1:])
+
+
 TRUSTED = [
     'Coq 8.16.1 kernel + vm_compute (no native_compute)',
     'Model/Parser.v (get_tag_indices, compile_regex as pieces + pattern text), Model/Checkers.v fits_regex, '
@@ -262,7 +369,7 @@ ASSUME = ['segments with back-references, look-around, inline flags or unbalance
 
 
 def main(argv):
-    return run_check('C03', [CompileStream(), FitsStream()], argv, trusted_base=TRUSTED, assumptions=ASSUME)
+    return run_check('C03', [CompileStream(), FitsStream(), CheckerHistoryStream()], argv, trusted_base=TRUSTED, assumptions=ASSUME)
 
 
 if __name__ == '__main__':
